@@ -16,7 +16,7 @@ import os
 import random
 import shutil
 
-from simkit import harness, proto, sched, world, fs as simfs
+from simkit import harness, proto, sched, world, fs as simfs, net as simnet
 from simkit.tape import Tape
 from . import common
 from .common import CACHEFILE
@@ -122,8 +122,23 @@ def gen(seed, index, tier):
             ops += [{"op": "list", "dir": d, "proto": rng.choice(PROTOS)}, mutation(),
                     {"op": "advance", "dt": a}, {"op": "list", "dir": d, "proto": rng.choice(PROTOS)},
                     {"op": "advance", "dt": b}, {"op": "list", "dir": d, "proto": rng.choice(PROTOS)}]
+        elif r < 0.07 + 0.12 and L > 0:
+            # a client that connects while the entry is still fresh and sends its request after it expired
+            d = rng.choice(listable)
+            a = min(L - 0.25, rng.choice([L / 2.0, L - 0.5, 1.0])) if L >= 1 else 0.0
+            dly = min(50.0, L - a + rng.choice([0.25, 0.5, 1.0]))
+            ops += [{"op": "list", "dir": d, "proto": rng.choice(PROTOS)}, mutation(),
+                    {"op": "advance", "dt": max(0.0, a)},
+                    {"op": "list", "dir": d, "proto": rng.choice(PROTOS), "delay": dly}]
         elif r < 0.55:
-            ops.append({"op": "list", "dir": rng.choice(listable), "proto": rng.choice(PROTOS)})
+            o = {"op": "list", "dir": rng.choice(listable), "proto": rng.choice(PROTOS)}
+            r2 = rng.random()
+            if r2 < 0.08:
+                o["delay"] = rng.choice([0.5, 1.0, 2.5, 30.0])
+            elif r2 < 0.16:
+                # the directory cannot be scanned for this one request (EIO / ESTALE / no permission)
+                o["scanfault"] = rng.choice(["EIO", "EACCES", "ENOENT"])
+            ops.append(o)
         elif r < 0.8:
             ops.append(mutation())
         else:
@@ -234,11 +249,27 @@ def execute(sc, tape=None):
                     sel = common.selector_of(op["dir"])
                     req, tls = proto.make_request(op["proto"], sel)
                     n0 = len(run.fs.open_sizes)
-                    c = run.client(req, tls=tls)
+                    flt = None
+                    if op.get("scanfault"):
+                        flt = simfs.Fault("listdir", op["dir"], op["scanfault"], nth="all")
+                        run.fs.faults.append(flt)
+                    if op.get("delay"):
+                        # the first byte (after the TLS hello, if any) arrives at once - it is what the
+                        # worker's protocol sniff waits for - and the rest of the request line late
+                        k = (len(simnet.fake_client_hello()) if tls else 0) + 1
+                        c = run.client(req, tls=tls, segments=[k], delays=[0.0, op["delay"]])
+                    else:
+                        c = run.client(req, tls=tls)
                     st = run.go()
+                    if flt is not None:
+                        run.fs.faults.remove(flt)
+                        if flt.fired:
+                            counters["scan_failed"] = counters.get("scan_failed", 0) + 1
+                    if op.get("delay"):
+                        counters["late_request_line"] = counters.get("late_request_line", 0) + 1
                     modes = [m for (_, m, _) in run.fs.open_sizes[n0:]]
                     listings.append((run.sim.now, op["dir"], op["proto"], bytes(c.s2c), len(states),
-                                     "r" in modes, "w" in modes))
+                                     "r" in modes, "w" in modes, bool(flt is not None and flt.fired)))
                     # a tiny amount of time passes per request so that histories are totally ordered
                     run.advance(0.001)
                 else:
@@ -279,8 +310,12 @@ def execute(sc, tape=None):
 
         viol = None
         writer_proto = {}
-        for (now, d, p, resp, nst, opened_r, opened_w) in listings:
+        for (now, d, p, resp, nst, opened_r, opened_w, scan_failed) in listings:
             got = proto.normalize(p, resp)
+            if scan_failed and not proto.is_success(p, got):
+                # the directory could not be read: an error reply is a right answer (a stale listing is not)
+                counters["scan_failed_answered_with_error"] = counters.get("scan_failed_answered_with_error", 0) + 1
+                continue
             cur = nst - 1
             cands = []
             for k in range(nst):
